@@ -131,6 +131,7 @@ func (s *System) Tick(t int64) {
 	}
 
 	// add background coroutines
+	full := false
 	for _, bg := range s.background {
 		if !s.api.Done() && (t-bg.last) >= int64(s.config.SignalTimeout.Milliseconds()) && (bg.promise == nil || bg.promise.Completed()) {
 			bg.last = t
@@ -145,8 +146,15 @@ func (s *System) Tick(t int64) {
 				s.coroutineMetrics(p, tags)
 			} else {
 				slog.Warn("scheduler queue full", "size", s.config.CoroutineMaxSize)
+				full = true
 			}
 		}
+	}
+
+	// the scheduler queue was too small for every due background coroutine: let another one go first
+	// on the next tick, otherwise the coroutines registered first starve the later ones for good
+	if full && len(s.background) > 1 {
+		s.background = append(s.background[1:], s.background[0])
 	}
 
 	// dequeue sqes
